@@ -75,6 +75,11 @@ func runAttackMonitor(c *Ctx, id string) int {
 		specs = append(specs, childSpec{Args: []string{"long", fmt.Sprint(i), fmt.Sprint(c.Pick(25, 125)), fmt.Sprint(c.Pick(120, 200))},
 			Env: []string{"GOMAXPROCS=1"}, Label: fmt.Sprintf("long %d", i), Timeout: 40 * time.Minute})
 	}
+	// bursts of ticks on several processors (real parallelism between the pacing loop and waking workers)
+	for i := 0; i < c.Pick(4, 16); i++ {
+		specs = append(specs, childSpec{Args: []string{"burst", fmt.Sprint(i), fmt.Sprint(c.Pick(400, 4000))}, Env: []string{"GOMAXPROCS=4"},
+			Label: fmt.Sprintf("burst %d", i), Timeout: 40 * time.Minute})
+	}
 	// stress under the race detector and plain
 	nStress := c.Pick(6, 32)
 	for i := 0; i < nStress; i++ {
@@ -134,6 +139,14 @@ func attackChild(c *Ctx, id string) int {
 			if !x.failed {
 				run.Distinct("long:" + fmt.Sprint(cfg) + strings.Join(x.script, ","))
 			}
+		}
+	case "burst":
+		rng := rand.New(rand.NewSource(c.Seed*4099 + int64(atoi(1))))
+		for i := 0; i < atoi(2); i++ {
+			cfg := scriptCfg{Workers: uint64(rng.Intn(4)), Max: uint64(1 + rng.Intn(5)), MaxFirst: rng.Intn(4) == 0}
+			burst := 2 + rng.Intn(int(cfg.Max)+1)
+			logCase(fmt.Sprintf(`{"cfg":{"workers":%d,"max_workers":%d},"burst":%d}`, cfg.Workers, cfg.Max, burst))
+			runBurst(run, cfg, burst, id)
 		}
 	case "stress":
 		rng := rand.New(rand.NewSource(c.Seed*7919 + int64(atoi(1))))
